@@ -22,6 +22,7 @@ type vnOp struct {
 	DNS  bool   `json:"dns"`
 	Ms   int    `json:"ms"`
 	Fail bool   `json:"fail"` // write: the outbound socket refuses the send
+	Hold bool   `json:"hold"` // reply: the relay to the client is still in progress while the next operation (a write) happens
 }
 
 type vnReq struct {
@@ -50,6 +51,8 @@ type vnResp struct {
 	MapEmpty  bool         `json:"map_empty"`
 	Replies   int          `json:"replies_relayed"`
 	Returned  bool         `json:"copy_returned"`
+	// the entry was removed / its socket closed / its removal reported before the history asked for expiry
+	GoneEarly bool `json:"gone_early"`
 }
 
 type vnTimeoutErr struct{}
@@ -135,6 +138,8 @@ func (c *vnFakeConn) SetReadDeadline(t time.Time) error {
 	// is already due when it is set makes the pending read time out, which is what a fast close does.
 	if !t.IsZero() && !t.After(time.Now()) {
 		c.expire = true
+	} else {
+		c.expire = false // extended (or cleared) before the pending read has timed out
 	}
 	v := int64(0)
 	if !t.IsZero() {
@@ -149,11 +154,21 @@ func (c *vnFakeConn) SetReadDeadline(t time.Time) error {
 // vnClientConn is the client-facing socket: counts relayed replies.
 type vnClientConn struct {
 	net.PacketConn
-	mu sync.Mutex
-	n  int
+	mu      sync.Mutex
+	n       int
+	hold    chan struct{} // non-nil: the next WriteTo blocks until it is closed
+	entered chan struct{}
 }
 
 func (c *vnClientConn) WriteTo(p []byte, addr net.Addr) (int, error) {
+	c.mu.Lock()
+	hold, entered := c.hold, c.entered
+	c.hold, c.entered = nil, nil
+	c.mu.Unlock()
+	if hold != nil {
+		close(entered)
+		<-hold
+	}
 	c.mu.Lock()
 	c.n++
 	c.mu.Unlock()
@@ -192,11 +207,14 @@ func vnRun(req vnReq) (resp vnResp) {
 	entry := nm.Add(clientAddr, cc, key, fc, "key id")
 	dnsAddr := &net.UDPAddr{IP: net.IPv4(192, 0, 2, 53), Port: 53}
 	webAddr := &net.UDPAddr{IP: net.IPv4(192, 0, 2, 80), Port: 443}
+	var release func() // finishes a held relay
 	for i, op := range req.Ops {
 		fc.mu.Lock()
 		fc.curOp = i
 		fc.mu.Unlock()
 		l := vnOpLog{T0Ns: int64(time.Since(fc.start))}
+		pending := release
+		release = nil
 		switch op.Kind {
 		case "write":
 			to := webAddr
@@ -213,20 +231,56 @@ func vnRun(req vnReq) (resp vnResp) {
 				from = dnsAddr
 			}
 			before := cc.count()
+			relayed := func() {
+				for t := time.Now(); cc.count() == before && time.Since(t) < 2*time.Second; {
+					time.Sleep(20 * time.Microsecond)
+				}
+			}
+			var hold, entered chan struct{}
+			if op.Hold && i+1 < len(req.Ops) && req.Ops[i+1].Kind == "write" {
+				hold, entered = make(chan struct{}), make(chan struct{})
+				cc.mu.Lock()
+				cc.hold, cc.entered = hold, entered
+				cc.mu.Unlock()
+			}
 			fc.mu.Lock()
 			fc.pkts = append(fc.pkts, vnPkt{[]byte("reply"), from})
 			fc.mu.Unlock()
 			fc.poke()
-			// wait until the copy loop has relayed it (bounded)
-			for t := time.Now(); cc.count() == before && time.Since(t) < 2*time.Second; {
-				time.Sleep(20 * time.Microsecond)
+			if hold != nil {
+				// the copy loop is now inside the relay to the client; the next operation happens meanwhile
+				select {
+				case <-entered:
+					release = func() { close(hold); relayed() }
+				case <-time.After(2 * time.Second):
+					cc.mu.Lock()
+					cc.hold, cc.entered = nil, nil
+					cc.mu.Unlock()
+				}
+			} else {
+				// wait until the copy loop has relayed it (bounded)
+				relayed()
 			}
 		case "pause":
 			time.Sleep(time.Duration(op.Ms) * time.Millisecond)
 		}
+		if pending != nil {
+			pending()
+		}
 		l.T1Ns = int64(time.Since(fc.start))
 		resp.Ops = append(resp.Ops, l)
 	}
+	if release != nil {
+		release()
+	}
+	// must-not-happen: nothing may have torn the association down yet (unless a fast close did, which the
+	// model knows about); a fixed settle time, since absence cannot be awaited
+	time.Sleep(2 * time.Millisecond)
+	fc.mu.Lock()
+	m.mu.Lock()
+	resp.GoneEarly = fc.closed || m.removed > 0 || nm.Get(clientAddr.String()) == nil
+	m.mu.Unlock()
+	fc.mu.Unlock()
 	// expire: the next read times out
 	fc.mu.Lock()
 	fc.curOp = len(req.Ops)
